@@ -124,7 +124,7 @@ def execute(arg):
 
 def real_run(arg):
     """multi_both with the module-level plugin family: the multiprocess run against the single-thread run"""
-    policy, case, tpl = arg
+    policy, case, tpl = arg[:3]
     import mpplugins as MP
     import multiprocessing
     # this harness process descends from a daemonic pool worker and must be allowed to have process-pool children
@@ -159,6 +159,8 @@ def real_run(arg):
             stored_after[mode] = sorted(c11.stored_types(d))
         finally:
             shutil.rmtree(d, ignore_errors=True)
+    if any(isinstance(v, str) and "Timeout" in v for v in rows.values()) and not (len(arg) > 3 and arg[3] == "retry"):
+        return real_run(tuple(arg[:3]) + ("retry",))       # a starved thread on a busy machine looks like a hang: once more
     if rows["multiprocess"] != rows["single_thread"]:
         res["bad"].append(f"multiprocess run gives {rows['multiprocess']}, single-thread run {rows['single_thread']}")
     elif stored_after["multiprocess"] != stored_after["single_thread"]:
